@@ -388,7 +388,7 @@ def check_equality(res):
 TOKENS_TYPE = ("text", "application", "x-t.a+b")
 TOKENS_SUB = ("plain", "x-traceback", "vnd.a+json", "octet-stream")
 PNAMES = ("charset", "language", "k", "x-p")
-PVALUES = ("a", "utf8", "a b", "a;b", "a=b", "a/b", "it's", "a,b", "", "x" * 40, " ", "> ", "\t", " a", "a\\b", "\\")
+PVALUES = ("a", "utf8", "UTF-8", "a b", "a;b", "a=b", "a/b", "it's", "a,b", "", "x" * 40, " ", "> ", "\t", " a", "a\\b", "\\")
 
 
 def check_content_types(res, tier):
